@@ -26,6 +26,7 @@ func init() {
 		s = append(s, errTypeScenarios(tier)...)
 		s = append(s, causeScenarios(tier)...)
 		s = append(s, releaseScenarios(tier)...)
+		s = append(s, routeScenarios(tier)...)
 		return s
 	}})
 }
